@@ -2120,7 +2120,9 @@ impl<'store> FindTextSelectionsIter<'store> {
         }
         match self.operator {
             TextSelectionOperator::Embeds { .. } => {
-                for reftextselection in self.refset.iter() {
+                //a found item must relate to *all* members of the reference set (see test()), so the range for one
+                //member suffices; walking a range per member would return items that lie in several ranges more than once
+                if let Some(reftextselection) = self.refset.get(0) {
                     self.textseliters.push((
                         self.resource
                             .range(reftextselection.begin(), reftextselection.end() + 1),
@@ -2215,7 +2217,9 @@ impl<'store> FindTextSelectionsIter<'store> {
                 limit: Some(limit), ..
             } => {
                 let halfway = self.resource.textlen() / 2;
-                for reftextselection in self.refset.iter() {
+                //a found item must relate to *all* members of the reference set (see test()), so the range for one
+                //member suffices; walking a range per member would return items that lie in several ranges more than once
+                if let Some(reftextselection) = self.refset.get(0) {
                     if reftextselection.begin() <= halfway {
                         let begin = if reftextselection.begin() > limit {
                             reftextselection.begin() - limit
@@ -2240,7 +2244,9 @@ impl<'store> FindTextSelectionsIter<'store> {
             }
             TextSelectionOperator::Overlaps { .. } | TextSelectionOperator::Embedded { .. } => {
                 let halfway = self.resource.textlen() / 2;
-                for reftextselection in self.refset.iter() {
+                //a found item must relate to *all* members of the reference set (see test()), so the range for one
+                //member suffices; walking a range per member would return items that lie in several ranges more than once
+                if let Some(reftextselection) = self.refset.get(0) {
                     if reftextselection.begin() <= halfway {
                         self.textseliters
                             .push((self.resource.range(0, reftextselection.end() + 1), true));
